@@ -43,8 +43,6 @@ M = [
   'the D7 repair reverted: ~DisableQueueNotify notifies without synchronising with waiters'),
  ('q-dqn-no-notify', EQ, '\t\t\t\tqueue->queueListConditionVariable.notify_one();\n\t\t\t}\n\t\t}\n\n\t\tEventQueueBase * queue;', '\t\t\t}\n\t\t}\n\n\t\tEventQueueBase * queue;', 'C07',
   '~DisableQueueNotify never notifies'),
- ('q-enqueue-notify-needs-two', EQ, '\t\tif(doCanProcess()) {\n\t\t\tqueueListConditionVariable.notify_one();\n\t\t}\n\t}\n\n\ttemplate <typename T, typename ...A>', '\t\tif(doCanProcess() && queueEmptyCounter.load() == 0) {\n\t\t\tqueueListConditionVariable.notify_one();\n\t\t}\n\t}\n\n\ttemplate <typename T, typename ...A>', 'C07',
-  'enqueue skips the notification while a processing call is in progress ("the consumer is awake anyway")'),
  ('q-copy-uninit', EQ, ': super(other), queueEmptyCounter(0), queueNotifyCounter(0)', ': super(other)', 'C10,C20',
   'the D4 repair reverted for the copy constructor'),
  ('q-clearevents-no-lock', EQ, '\t\t\t{\n\t\t\t\tstd::lock_guard<Mutex> queueListLock(queueListMutex);\n\t\t\t\tEVENTPP_VERIF_POINT("q.queueList.cs");\n\t\t\t\tstd::swap(queueList, tempList);\n\t\t\t}\n\n\t\t\tif(! tempList.empty()) {\n\t\t\t\tfor(auto & item : tempList) {\n\t\t\t\t\titem.clear();',
